@@ -26,6 +26,7 @@ const USES = {
   htmlParam:{ tpl: (i) => `__out.k${i} = (div) => <div />;`, type: 'tag:div' },
 };
 const USE_KEYS = Object.keys(USES);
+const COMMENTS = ['/** @jsxImportSource vue */', '/* @jsxRuntime classic */', '/** @jsxFrag Fragment */', '/**\n * @jsxRuntime automatic\n * @jsxImportSource vue\n */', '// @ts-nocheck', '/* eslint-disable */\n/* @vue/component */'];
 
 function spaces(tier) {
   const thorough = tier === 'thorough';
@@ -65,6 +66,12 @@ function spaces(tier) {
       }
     },
   });
+  // comments that look like annotations of other tool chains must leave elements alone
+  sp.push({
+    name: 'C:leading-comments',
+    bounds: { comments: COMMENTS, hosts: ['div', 'Comp', 'Unbound', 'member'], attrs: 'all, ≤1', options: 'defaults and optimize' },
+    *gen() { for (let ci = 0; ci < COMMENTS.length; ci++) for (const host of ['div', 'Comp', 'Unbound', 'member']) for (const k of [null].concat(E.ALL_ATTRS)) for (const o of [OPT_VECTORS.find((v) => v.mergeProps && !v.transformOn && !v.optimize), OPT_VECTORS.find((v) => v.mergeProps && !v.transformOn && v.optimize)]) yield { sp: 'A', host, attrs: k ? [k] : [], o, cm: ci }; },
+  });
   sp.push({
     name: 'P:tag-uses-per-module',
     bounds: { uses: USE_KEYS, max_length: thorough ? 4 : 3, note: 'several elements with the same tag name under different bindings in one module' },
@@ -87,7 +94,7 @@ function requests(c) {
   if (c.sp === 'P') return [{ src: E.PRELUDE + c.uses.map((u, i) => USES[u].tpl(i)).join('\n') + '\n', want: ['eval'], opts: '{}' }];
   const h = E.HOSTS[c.host];
   const jsx = E.renderJsx(c.host, c.attrs.map((k, i) => (c.w && c.w[0] === i ? E.wrapAttr(E.ATTRS[k].src, c.w[1]) : E.ATTRS[k].src)), []);
-  return [{ src: E.renderModule(c.host, jsx), ts: !!c.w, want: ['eval'], opts: E.optsJson(Object.assign({ pattern: !!h.pattern }, c.o)) }];
+  return [{ src: (c.cm !== undefined ? COMMENTS[c.cm] + '\n' : '') + E.renderModule(c.host, jsx), ts: !!c.w, want: ['eval'], opts: E.optsJson(Object.assign({ pattern: !!h.pattern }, c.o)) }];
 }
 
 function abstain(c) {
@@ -160,6 +167,7 @@ function* shrink(c) {
     for (let i = 0; i < c.s.length; i++) if (['b', '&amp;'].includes(SYM[c.s[i]][0])) { const s = c.s.slice(); s[i] = 0; yield { sp: 'S', s }; }
     return;
   }
+  if (c.cm !== undefined) yield Object.assign({}, c, { cm: undefined });
   if (c.w) yield Object.assign({}, c, { w: undefined });
   for (let i = 0; i < c.attrs.length; i++) if (!c.w || c.w[0] !== i) yield Object.assign({}, c, { attrs: c.attrs.slice(0, i).concat(c.attrs.slice(i + 1)), w: c.w && [c.w[0] - (i < c.w[0] ? 1 : 0), c.w[1]] });
   if (c.w && c.w[1] !== 'paren') yield Object.assign({}, c, { w: [c.w[0], 'paren'] });
@@ -174,7 +182,7 @@ function caseKey(c) {
   if (c.sp === 'P') return 'P:' + c.uses.join(',');
   if (c.sp === 'S') return 'S:' + c.s.map((i) => SYM[i][0]).join('.');
   const o = Object.keys(c.o).filter((k) => c.o[k]).join('+') || '-';
-  return `A:${c.host}[${c.attrs.map((k, i) => (c.w && c.w[0] === i ? c.w[1] + '(' + k + ')' : k)).join(',')}]{${o}}`;
+  return `A:${c.host}[${c.attrs.map((k, i) => (c.w && c.w[0] === i ? c.w[1] + '(' + k + ')' : k)).join(',')}]{${o}}${c.cm !== undefined ? ' after ' + JSON.stringify(COMMENTS[c.cm]) : ''}`;
 }
 
 module.exports = {
